@@ -156,7 +156,8 @@ func (st cmapStats) key(kind string) string {
 
 // lawsCmap scans Lookup over the whole domain and judges Iter and RuneRanges
 // against it. sc.ok / sc.gid / sc.viaRemap / sc.gid0 stay valid for the caller.
-func lawsCmap(cm font.Cmap, sc *scratch) (st cmapStats, fs []finding) {
+func lawsCmap(cm font.Cmap, sc *scratch, rawCmap []byte) (st cmapStats, fs []finding) {
+	arraySeg := format4ArraySegments(rawCmap)
 	st.Class = typeClass(cm)
 	add := func(kind, format string, a ...any) {
 		fs = append(fs, finding{Kind: kind, Msg: fmt.Sprintf(format, a...)})
@@ -253,9 +254,10 @@ func lawsCmap(cm font.Cmap, sc *scratch) (st cmapStats, fs []finding) {
 					exExtra0 = fmt.Sprintf("Iter yields (U+%04X, 0) (a glyph 0 entry, which Lookup skips: it answers %d through the remapping)", r, lg)
 				}
 				nExtra0++
-			} else if lg&0xFFFF == uint32(g)&0xFFFF {
+			} else if lg&0xFFFF == uint32(g)&0xFFFF && arraySeg(r) {
+				// glyph array entry + idDelta: the known class
 				if nGidMod == 0 {
-					exGidMod = fmt.Sprintf("Iter yields (U+%04X, %d) but Lookup gives %d (equal modulo 65536)", r, g, lg)
+					exGidMod = fmt.Sprintf("Iter yields (U+%04X, %d) but Lookup gives %d (equal modulo 65536; the rune lies in a format 4 segment with a glyph index array)", r, g, lg)
 				}
 				nGidMod++
 			} else {
@@ -535,7 +537,8 @@ func judgeFont(data []byte, index int) (st fontStats, fs []finding) {
 	st.Accepted = true
 	sc := scratchPool.Get().(*scratch)
 	defer scratchPool.Put(sc)
-	st.cmapStats, fs = lawsCmap(ft.Cmap, sc)
+	rawCmap, _ := lds[index].RawTable(ot.MustNewTag("cmap"))
+	st.cmapStats, fs = lawsCmap(ft.Cmap, sc, rawCmap)
 	if st.Inconcl != "" {
 		return
 	}
@@ -596,4 +599,50 @@ func dedup(fs []finding) []finding {
 		}
 	}
 	return out
+}
+
+// format4ArraySegments reads the format 4 subtables of a raw 'cmap' table on
+// its own and reports whether a rune lies in a segment that goes through the
+// glyph index array (idRangeOffset != 0). Only used to tell two defect classes
+// apart in the key of a finding.
+func format4ArraySegments(raw []byte) func(r rune) bool {
+	type seg struct{ lo, hi uint16 }
+	var segs []seg
+	u16 := func(off int) int {
+		if off < 0 || off+2 > len(raw) {
+			return -1
+		}
+		return int(raw[off])<<8 | int(raw[off+1])
+	}
+	n := u16(2)
+	for i := 0; i < n; i++ {
+		rec := 4 + 8*i
+		if rec+8 > len(raw) {
+			break
+		}
+		off := u16(rec+4)<<16 | u16(rec+6)
+		if u16(off) != 4 {
+			continue
+		}
+		segCount := u16(off+6) / 2
+		for k := 0; k < segCount; k++ {
+			end := u16(off + 14 + 2*k)
+			start := u16(off + 16 + 2*segCount + 2*k)
+			iro := u16(off + 16 + 6*segCount + 2*k)
+			if end < 0 || start < 0 || iro < 0 {
+				break
+			}
+			if iro != 0 && start != 0xFFFF && start <= end {
+				segs = append(segs, seg{uint16(start), uint16(end)})
+			}
+		}
+	}
+	return func(r rune) bool {
+		for _, s := range segs {
+			if r >= rune(s.lo) && r <= rune(s.hi) {
+				return true
+			}
+		}
+		return false
+	}
 }
